@@ -8,6 +8,7 @@ mkdir -p /tmp/ev
 fail=0
 for d in seeded/*${pat}*/; do
   id=$(basename $d)
+  if grep -q '"neutralised"' $d/meta.json; then echo "$id skipped (neutralised by a later repository fix, see meta.json)"; continue; fi
   checks=$(/venv/bin/python -c "
 import json; m=json.load(open('$d/meta.json')); ev=m['evaluation']['checks']
 c=[k for k,v in ev.items() if v['result']=='caught'] or [m['breaks_property']]; print(c[0])")
